@@ -26,6 +26,7 @@ import shlex
 
 from . import extract as ex
 from . import alpha
+from . import inline
 
 
 class WeaveError(Exception):
@@ -91,6 +92,17 @@ class Weaver:
     # ------------------------------------------------------------------
     def weave(self, template_name):
         lines = self.read_template(template_name)
+        # names the templates put under contract or define themselves: never inlined (R19)
+        self.covered = set()
+        for ln in lines:
+            st = ln.strip()
+            if st.startswith('//@fn '):
+                parts = st.split()
+                if len(parts) >= 3:
+                    self.covered.add(parts[2].split('::')[-1])
+            else:
+                for mm in re.finditer(r'\bfn\s+([A-Za-z_]\w*)', ln):
+                    self.covered.add(mm.group(1))
         out = []       # output lines
         i = 0
         n = len(lines)
@@ -243,6 +255,9 @@ class Weaver:
         nkey = rel + '::' + qual
         self.names_seen[nkey] = alpha.snapshot(it.head, it.body)
         it.head, it.body = alpha.restore_names(it.head, it.body, self.names.get(nkey), log)
+        if not assumed:
+            # R19: beta-reduce calls to private helpers that have no contract (e.g. freshly extracted ones)
+            it.body = inline.inline_helpers(self.repo, it.body, self.covered, qual.split('::')[-1], log)
         head = ex.rewrite_sig(it.head, ret, log)
         if vis is not None and not head.startswith('pub'):
             head = vis + ' ' + head
